@@ -79,9 +79,24 @@ fn lines(v: &V, addr: u32) -> Vec<Vec<u8>> {
         l.push(hexline(&frames::df11(5, addr, 0)));
         l.push(hexline(&frame(&Code { st: 1, dew: 0, vew: S_VEW, dns: 0, vns: S_VNS, vrsign: 0, vr: S_VR, ca: 5, diffsign: 0, diff: 0, pre_alt: 0 }, addr)));
     }
-    if v.c.pre_alt != 0 {
+    if v.c.pre_alt > 0 {
         // the row holds a (low) barometric altitude before the velocity squitter arrives
         l.push(hexline(&frames::df4(addr, frames::ac13_for_alt(v.c.pre_alt - 1))));
+    }
+    if v.c.pre_alt < 0 {
+        // the row holds Comm-B values before the velocity squitter arrives: capability 5, every register
+        // advertised, then (-1) a BDS 6,0 with a barometric rate of +640, (-2) a BDS 6,0 whose barometric
+        // rate field is "-0" so that the inertial rate (+640 / +672) is what the row shows, (-3) a BDS 5,0
+        let alt = frames::ac13_for_alt(7000);
+        l.push(hexline(&frames::df11(5, addr, 0)));
+        l.push(hexline(&frames::df20(addr, alt, frames::mb_bds17(0xFFFFFF))));
+        let b60 = |s_baro: u32, baro_sign: u32, baro: u32, ivv: u32| frames::B60 { s_hdg: 1, hdg_sign: 1, hdg: 398, s_ias: 1, ias: 280, s_mach: 1, mach: 195, s_baro, baro_sign, baro, s_ivv: 1, ivv_sign: 0, ivv };
+        match v.c.pre_alt {
+            -1 => l.push(hexline(&frames::df20(addr, alt, frames::mb_bds60(&b60(1, 0, 20, 20))))),
+            -2 => l.push(hexline(&frames::df20(addr, alt, frames::mb_bds60(&b60(1, 1, 0, 20))))),
+            -4 => l.push(hexline(&frames::df20(addr, alt, frames::mb_bds60(&b60(1, 1, 0, 21))))),
+            _ => l.push(hexline(&frames::df20(addr, alt, crate::props::rowmodel::valid_bds50(false)))),
+        }
     }
     l.push(hexline(&frame(&v.c, addr)));
     l
@@ -301,6 +316,14 @@ fn run(ctx: &mut Ctx) {
         for vrsign in 0..2 {
             for vr in 0..512 {
                 vr_codes.push(Code { st: 1, dew: 1, vew, dns: 0, vns, vrsign, vr, ca: 5, diffsign: 0, diff: 0, pre_alt: 0 });
+            }
+        }
+    }
+    // ... and on rows whose vertical rate / speed came from Comm-B registers (a TC19 squitter replaces them)
+    for pre_alt in [-1i32, -2, -3, -4] {
+        for vrsign in 0..2 {
+            for vr in 0..512 {
+                vr_codes.push(Code { st: 1, dew: 0, vew: 200, dns: 1, vns: 300, vrsign, vr, ca: 5, diffsign: 0, diff: 0, pre_alt });
             }
         }
     }
